@@ -168,7 +168,7 @@ def consume(ctx, results, tag):
         if "bad" in r:
             ctx.violation(r["bad"])
 
-def run_cfg(ctx, module, cfg, worker_fn, tag, mk=None):
+def run_cfg(ctx, module, cfg, worker_fn, tag, mk=None, shuffle=False):
     res = tlc.run(module, cfg, dump=True, tag=tag, timeout=3000)
     ctx.add_tlc(res, cfg)
     if res.violated:
@@ -178,6 +178,9 @@ def run_cfg(ctx, module, cfg, worker_fn, tag, mk=None):
     blocks = tlaval.split_dump_blocks(res.dump_path)
     tlc.cleanup(res)
     items = [(b, ctx.seed) for b in blocks] if mk is None else mk(blocks)
+    if shuffle:      # cases meet in a worker process in a seeded random order (state carried from one case to the next)
+        import random
+        random.Random(ctx.seed * 977 + len(items)).shuffle(items)
     consume(ctx, core.pmap(worker_fn, items, chunksize=100), tag)
 
 def run(ctx):
